@@ -746,10 +746,16 @@ class ProgramGen:
                 sets.append("%s /%s/" % (", ".join(objs), ", ".join(vals)))
             elif c < 0.9:
                 v = self.env.loopvar()
-                sets.append("(%s(%s), %s = 1, 10) /10*%s/" % (self.env.array(), v, v, r.choice(["0", "1.0"])))
+                if self.p(0.4):
+                    sets.append("(%s(%s), %s = 2, 10, 2) /5*%s/" % (self.env.array(), v, v, r.choice(["0", "1.0"])))
+                else:
+                    sets.append("(%s(%s), %s = 1, 10) /10*%s/" % (self.env.array(), v, v, r.choice(["0", "1.0"])))
             else:
                 v, w = self.env.loopvar(), self.env.loopvar()
-                sets.append("((%s(%s, %s), %s = 1, 2), %s = 1, 3) /6*0/" % (self.env.array(), v, w, v, w))
+                if self.p(0.4):
+                    sets.append("((%s(%s, %s), %s = 1, 4, 2), %s = 1, 3, 1) /6*0/" % (self.env.array(), v, w, v, w))
+                else:
+                    sets.append("((%s(%s, %s), %s = 1, 2), %s = 1, 3) /6*0/" % (self.env.array(), v, w, v, w))
         self.S("data", "data " + ", ".join(sets))
 
     def st_procdecl(self, ctx):
@@ -985,6 +991,10 @@ class ProgramGen:
     def _cname(self):
         return self.env.fresh() if self.p(0.3) else None
 
+    def _olabel(self, ctx):
+        """optional statement label on a construct opener (e.g. '10 nm: if (...) then')"""
+        return self.label(ctx) if self.p(0.12) else None
+
     def _sub(self, ctx, nest, maxn=3):
         self.depth += 1
         self.body(ctx, self.r.randint(0, maxn), nest)
@@ -993,7 +1003,7 @@ class ProgramGen:
     def c_if(self, ctx, nest):
         cid = self.new_cid()
         name = self._cname()
-        self.S("if_then", "if (%s) then" % self.lexpr(), cname=name, cid=cid, role="open")
+        self.S("if_then", "if (%s) then" % self.lexpr(), cname=name, cid=cid, role="open", label=self._olabel(ctx))
         self._sub(ctx, nest)
         nm = lambda: (" " + self.env.note(name)) if name and self.p(0.6) else ""  # noqa: E731
         for _ in range(self.r.choice([0, 0, 1, 2])):
@@ -1027,7 +1037,7 @@ class ProgramGen:
             t = "do" + lc
         else:
             t = "do " + lc if lc else "do"
-        self.S("do", t, cname=name, cid=cid, role="open")
+        self.S("do", t, cname=name, cid=cid, role="open", label=self._olabel(ctx))
         ctx.loops.append(name)
         self._sub(ctx, nest)
         ctx.loops.pop()
@@ -1079,7 +1089,7 @@ class ProgramGen:
         cid = self.new_cid()
         name = self._cname()
         kw = "select case" if self.p(0.8) else "selectcase"
-        self.S("select_case", "%s (%s)" % (kw, self.iexpr(1)), cname=name, cid=cid, role="open")
+        self.S("select_case", "%s (%s)" % (kw, self.iexpr(1)), cname=name, cid=cid, role="open", label=self._olabel(ctx))
         nm = lambda: (" " + self.env.note(name)) if name and self.p(0.6) else ""  # noqa: E731
         for _ in range(r.randint(0, 3)):
             c = r.random()
@@ -1144,7 +1154,7 @@ class ProgramGen:
     def c_where(self, ctx, nest):
         cid = self.new_cid()
         name = self._cname()
-        self.S("where", "where (%s)" % self.lexpr(1), cname=name, cid=cid, role="open")
+        self.S("where", "where (%s)" % self.lexpr(1), cname=name, cid=cid, role="open", label=self._olabel(ctx))
         self.where_body(ctx, nest)
         nm = lambda: (" " + self.env.note(name)) if name and self.p(0.6) else ""  # noqa: E731
         for _ in range(self.r.choice([0, 0, 1])):
@@ -1173,7 +1183,7 @@ class ProgramGen:
     def c_forall(self, ctx, nest):
         cid = self.new_cid()
         name = self._cname()
-        self.S("forall", "forall " + self.forall_header(), cname=name, cid=cid, role="open")
+        self.S("forall", "forall " + self.forall_header(), cname=name, cid=cid, role="open", label=self._olabel(ctx))
         self.depth += 1
         for _ in range(self.r.randint(0, 3)):
             c = self.r.random()
@@ -1196,7 +1206,7 @@ class ProgramGen:
         name = self._cname()
         assoc = ["%s => %s" % (self.env.scalar(), self.expr(1) if self.p(0.6) else self.var())
                  for _ in range(self.r.randint(1, 3))]
-        self.S("associate", "associate (%s)" % ", ".join(assoc), cname=name, cid=cid, role="open")
+        self.S("associate", "associate (%s)" % ", ".join(assoc), cname=name, cid=cid, role="open", label=self._olabel(ctx))
         self._sub(ctx, nest)
         e = "end associate" if self.p(0.7) else "endassociate"
         self.S("end_associate", e + ((" " + self.env.note(name)) if name else ""), cid=cid, role="close")
@@ -1340,7 +1350,7 @@ class ProgramGen:
                     w = self.env.loopvar()
                     items.append("((%s(%s, %s), %s = 1, 2), %s = 1, %s)" % (self.env.array(), v, w, v, w, self.iexpr(0)))
                 else:
-                    items.append("(%s, %s = 1, %s)" % (inner, v, self.iexpr(0)))
+                    items.append("(%s, %s = 1, %s%s)" % (inner, v, self.iexpr(0), (", " + self.iexpr(0)) if self.p(0.3) else ""))
         return ", ".join(items)
 
     def fmt_ref(self, ctx):
